@@ -72,6 +72,36 @@ def chunk_ptr_set (_E : Nat) (c : Chunk) (p : Nat) (s : St) : St × Outcome Unit
     else (s, .bad "store to the finger of a chunk that is not current")
   | [] => (s, .bad "store to the finger of the static empty chunk")
 
+/-- `footer.prev.get()` for a chunk footer `c` of the arena: the next older chunk, or the static empty chunk -/
+def chunk_prev (E : Nat) (s : St) (c : Chunk) : Chunk :=
+  match s.a.chunks with
+  | h :: rest => if h.footer == c.footer then rest.headD (emptyChunk E) else emptyChunk E
+  | [] => emptyChunk E
+
+/-- `cur.prev.replace(EMPTY_CHUNK.get())`: cut the chain behind the current chunk and hand back what was
+cut off (the older chunks, newest first).  Only this use is translated: `c` must be the current chunk and the
+new link the static empty chunk. -/
+def chunk_prev_replace (E : Nat) (c new : Chunk) (s : St) : St × Outcome (List Chunk) :=
+  match s.a.chunks with
+  | h :: rest =>
+    if h.footer == c.footer && new.footer == (emptyChunk E).footer then
+      ({ s with a := { s.a with chunks := [h] } }, .ok rest)
+    else (s, .bad "prev.replace: not the current chunk / not the static empty chunk")
+  | [] => (s, .bad "prev.replace on the static empty chunk")
+
+/-- `dealloc_chunk_list(chain)`: every chunk of the chain goes back to the global allocator with the layout it was
+obtained with, newest first (the `while` loop of the source is not translated) -/
+def dealloc_chunk_list (chain : List Chunk) (s : St) : St × Outcome Unit :=
+  ({ s with evs := s.evs ++ chain.map freeEv }, .ok ())
+
+/-- `footer.allocated_bytes = n` for the current chunk -/
+def chunk_ab_set (_E : Nat) (c : Chunk) (n : Nat) (s : St) : St × Outcome Unit :=
+  match s.a.chunks with
+  | h :: rest =>
+    if h.footer == c.footer then ({ s with a := { s.a with chunks := { h with ab := n } :: rest } }, .ok ())
+    else (s, .bad "store to allocated_bytes of a chunk that is not current")
+  | [] => (s, .bad "store to allocated_bytes of the static empty chunk")
+
 /-- `ptr::copy_nonoverlapping(src, dst, n)` -/
 def copy_nonoverlapping (src dst n : Nat) (s : St) : St × Outcome Unit :=
   if rangesOverlap src dst n then (s, .bad "copy_nonoverlapping on overlapping ranges")
